@@ -644,6 +644,8 @@ class ExprMixin:
                     return self.alloc(ListCell(z3.Concat(ca.seq, cb.seq), ca.kind))
                 if isinstance(op, ast.Mult) and isinstance(b, num):
                     return models.list_repeat(self, ca, b, node)
+        if isinstance(op, ast.Add) and models.is_bytes(a) and models.is_bytes(b):
+            return models.bytes_concat(self, a, b)
         if isinstance(a, VFloat) or isinstance(b, VFloat):
             return models.float_binop(self, op, a, b, node)
         if isinstance(a, (VNone,)) or isinstance(b, (VNone,)):
